@@ -77,6 +77,8 @@ impl Token {
         })
         .min_by_key(|(i, _, _)| *i)
         {
+            #[cfg(ae9rb_basic_lang_verif)]
+            crate::mach::verif::tick("token::scan_alphabetic");
             if idx == 0 {
                 v.push_back(token);
                 s = &s[len..];
